@@ -33,6 +33,7 @@ macro_rules! record_fn {
         ops: vec![],
         adv: vec![],
         expect: Default::default(),
+        ser: vec![],
         tag: String::new(),
     };
     let pp = match crate::session::cached_setup::<$A>(size as i64, beh_nv) {
